@@ -80,7 +80,10 @@ def main():
                                           res['rule_disagreements'], res['violating_shapes'], res['states'], res['tlc_wall_s']))
         if rc != 0:
             failures.append('unmodified copy is not silent')
-        for name, rel, old, new in MUTANTS:
+        only = [int(a.split('=')[1]) for a in sys.argv if a.startswith('--only=')]
+        for mi, (name, rel, old, new) in enumerate(MUTANTS):
+            if only and mi not in only:
+                continue
             path = os.path.join(repo, rel)
             src = open(path).read()
             if src.count(old) != 1:
